@@ -5,4 +5,6 @@
 pub mod c05;
 pub mod c08;
 pub mod c09;
+pub mod c12;
 pub mod c13;
+pub mod c16;
